@@ -231,7 +231,7 @@ impl Prop for C01Prop {
         let (_, items) = parse_req(req);
         let dom = model.split(' ').nth(1) == Some("DOM");
         if !dom {
-            return Some(false); // generator produced a case outside the theorem's domain
+            return None; // outside the theorem's domain (shrinking may leave it): no verdict
         }
         let expected = format!(
             "OK {} {}",
